@@ -4,6 +4,7 @@
 #define TETL_RATIO_GREATER_HPP
 
 #include <etl/_ratio/ratio.hpp>
+#include <etl/_ratio/ratio_less.hpp>
 #include <etl/_type_traits/bool_constant.hpp>
 
 namespace etl {
@@ -13,7 +14,7 @@ namespace etl {
 /// true. Otherwise, value is false.
 /// \ingroup ratio
 template <typename R1, typename R2>
-struct ratio_greater : bool_constant<(R1::num * R2::den > R2::num * R1::den)> { };
+struct ratio_greater : bool_constant<ratio_less<R2, R1>::value> { };
 
 /// \ingroup ratio
 template <typename R1, typename R2>
